@@ -563,3 +563,5 @@ def run(ctx):
     r2(ctx, fs)
     r3(ctx, fs)
     r4(ctx, fs)
+    # the constraints whose satisfaction the values are a model of are built by the relation builders (C11, which rests on C15): evaluated here too
+    ctx.include('C11')
